@@ -148,6 +148,25 @@ def gen_case(r, script, fail_scripts, logdir):
             if r.random() < 0.3:
                 lines.append(r.choice(["", "   ", " \t"]))
             b.tag_line = line
+            if ext == "md" and r.random() < 0.15 and not b.failing:
+                # a sibling block on the same source line: `<!-- <block A> --> a <!-- </block> --> <!-- <block B> --> b <!-- </block> -->`
+                b2 = LB()
+                b2.name, b2.path, b2.failing, b2.verdict, b2.kind, b2.pattern = b.name + "s", path, False, "string", None, None
+                attrs2 = [("name", b2.name), ("check-lua", script), ("spin", "0"), ("verdict", "string")]
+                if logdir:
+                    attrs2.append(("log", os.path.join(logdir, "calls.log")))
+                b2.attr_map = {k: v for k, v in attrs2}
+                b.tag_line = b2.tag_line = line
+                b.content, b2.content = " one ", " two "
+                b.pattern = None
+                attrs = [(k, v) for k, v in attrs if k != "check-lua-pattern"]
+                b.attr_map = {k: ("" if v is None else v) for k, v in attrs}
+                b.expected_content, b2.expected_content = "one", "two"
+                out.append("<!-- <block %s> --> one <!-- </block> --> <!-- <block %s> --> two <!-- </block> -->\n\n" % (render_attrs(attrs), render_attrs(attrs2)))
+                line += 2
+                blocks.append(b)
+                blocks.append(b2)
+                continue
             if ext == "md":
                 if r.random() < 0.35:
                     # start tag spread over several lines: ctx.line is the line of its '<'
